@@ -53,9 +53,38 @@ EncFinish(s) == IF s.cur = << >> THEN s.out ELSE Append(s.out, Close(s.cur, s.ct
 RECURSIVE EncRun(_, _, _)
 EncRun(dev, stream, s) == IF EncDone(s) THEN s ELSE EncRun(dev, stream, EncStep(dev, stream, s))
 
-(* closed form of a whole call: frames and the counter afterwards *)
-Encode(dev, stream, seq, batch, ctx) ==
+(* a whole call, step by step: frames and the counter afterwards *)
+EncodeStepwise(dev, stream, seq, batch, ctx) ==
     LET s == EncRun(dev, stream, EncInit(batch, ctx, seq)) IN
+    [frames |-> EncFinish(s), seq |-> s.seq]
+
+(* ---- closed form of the EmitSegmentFrame run of one packet ----------------- *)
+(* All segment frames of a packet that does not fit, as one expression.  The  *)
+(* judge uses it so that the depth of TLC's recursion is the number of        *)
+(* packets, not of frames; MC_Enc checks that it equals the stepwise result.  *)
+SegCap(ctx) == ctx.max - CmpHdrSize - MsgHdrSize
+NSeg(p, ctx) == (Len(p.pl) + SegCap(ctx) - 1) \div SegCap(ctx)
+
+SegFrames(dev, stream, seq0, p, ctx) ==
+    LET cap == SegCap(ctx)  nseg == NSeg(p, ctx) IN
+    [k \in 1..nseg |->
+        LET off == (k - 1) * cap
+            n   == Min(cap, Len(p.pl) - off)
+            seg == IF k = 1 THEN SegFirst ELSE IF k = nseg THEN SegLast ELSE SegMid
+        IN Close(FrameHdr(p.ver, dev, p.mt, stream, (seq0 + k) % 65536) \o MsgHdr(p, seg, n) \o Slice(p.pl, off, n), ctx)]
+
+EncPacket(dev, stream, s) ==
+    LET p == s.batch[s.i] IN
+    IF Fits(p, s.ctx) THEN EncStep(dev, stream, s)
+    ELSE LET flushed == IF s.cur = << >> THEN s.out ELSE Append(s.out, Close(s.cur, s.ctx)) IN
+         [s EXCEPT !.out = flushed \o SegFrames(dev, stream, s.seq, p, s.ctx),
+                   !.seq = (s.seq + NSeg(p, s.ctx)) % 65536, !.cur = << >>, !.i = @ + 1, !.off = 0]
+
+RECURSIVE EncRunP(_, _, _)
+EncRunP(dev, stream, s) == IF EncDone(s) THEN s ELSE EncRunP(dev, stream, EncPacket(dev, stream, s))
+
+Encode(dev, stream, seq, batch, ctx) ==
+    LET s == EncRunP(dev, stream, EncInit(batch, ctx, seq)) IN
     [frames |-> EncFinish(s), seq |-> s.seq]
 
 =============================================================================
